@@ -143,6 +143,8 @@ private:
     XalanSourceTreeDocument* const  m_ownerDocument;
 
     XalanNode*                      m_firstChild;
+
+    const IndexType                 m_index;
 };
 
 
